@@ -32,7 +32,9 @@ LAYERS = ('ms', 'tp', 'ml', 'lp', 'mp')
 # how a provider is built: from a context (plain), the vector-of-processors constructor (v), the single-processor constructor +
 # AddProcessor for the rest (p), the default constructor + AddProcessor (d); MeterProvider: default, from a MeterContext (c), the
 # (views, resource) constructor (v).  "The provider that owns them" is whichever of these the application used.
-HOW = {'ms': [''], 'ml': [''], 'tp': ['', 'v', 'p'], 'lp': ['', 'v', 'p', 'd'], 'mp': ['', 'c', 'v']}
+HOW = {'ms': [''], 'ml': ['', 'f'], 'tp': ['', 'v', 'p', 'f', 'g'], 'lp': ['', 'v', 'p', 'd', 'f', 'g'], 'mp': ['', 'c', 'v', 'f', 'g']}
+# f = through the factory (TracerProviderFactory / LoggerProviderFactory / MeterProviderFactory / MultiLogRecordProcessorFactory ::Create),
+# g = the provider's factory over the context's factory (TracerContextFactory / LoggerContextFactory / MeterContextFactory)
 
 
 def _case(line, *tags, origin='gen'):
